@@ -383,16 +383,24 @@ theorem C18_returns_none_value_unchanged (c : Case) (o : Oracle) (v : V) (x : Na
 /-- **C18_equal_params_equal**: two source expressions that are the same constructor calls with pairwise
     `==` parameters build validators that are `==`, and — when all parameters are hashable — hashable with
     equal hashes; except K9 (corresponding `in_` whose equal set/dict options are stored as different
-    tuples) and K18a (`matches_re` built on both sides of a purge of re's cache).  `coherent` states what
-    is assumed of the parameter objects (hash contract, re's cache). -/
+    tuples).  `coherent` states what is assumed of the parameter objects (Python's hash contract; `==`
+    regexes with the same flags compile to `==` patterns).  Since the repair of K18a `matches_re` needs no
+    exception: `match_func` is compared and hashed by the method's name, so it no longer matters whether
+    the two constructions got the same compiled pattern object from re's cache. -/
 theorem C18_equal_params_equal (eo : EqOracle) (v w : V) (hv : source v = true) (hw : source w = true)
-    (hcoh : coherent eo v w = true) (hsame : sameUpTo eo v w = true)
-    (hK9 : k9 eo v w = false) (hK18a : eo.purge = false ∨ hasRe v = false) :
+    (hcoh : coherent eo v w = true) (hsame : sameUpTo eo v w = true) (hK9 : k9 eo v w = false) :
     veq eo (norm v) (norm w) = .t ∧
     (paramsHashable eo v = true → paramsHashable eo w = true →
       vhash eo (norm v) = none ∧ vhash eo (norm w) = none ∧ vhashEq eo (norm v) (norm w) = true) :=
-  ⟨veq_norm eo v w hv hw hsame hK9 hcoh hK18a,
-   fun p1 p2 => vhash_norm eo v w hv hw hsame hK9 hcoh hK18a p1 p2⟩
+  ⟨veq_norm eo v w hv hw hsame hK9 hcoh, fun p1 p2 => vhash_norm eo v w hv hw hsame hK9 hcoh p1 p2⟩
+
+/-- **C18_purge_irrelevant**: whether re's compile cache is purged between the two constructions (equal
+    regexes then compile to distinct pattern objects) changes nothing the model outputs or the spec
+    demands — the former K18a -/
+theorem C18_purge_irrelevant (c : Case) (b : Bool) (o : Obs) :
+    model { c with purge := b } = model c ∧ spec { c with purge := b } o = spec c o ∧
+    known { c with purge := b } = known c :=
+  ⟨rfl, rfl, rfl⟩
 
 /-! ### constructor arguments -/
 
@@ -428,20 +436,22 @@ def k18aWitness : Case :=
     vals := [{ id := 0, fp := "str:aa", isNone := false, callable := false, len := .ok 2, iter := none }],
     prim := [⟨[3, 0, 0, 0, 0], .t⟩, ⟨[3, 0, 0, 1, 0], .t⟩, ⟨[3, 0, 0, 2, 0], .t⟩, ⟨[6, 0], .f⟩, ⟨[7, 0, 0], .t⟩,
              ⟨[13, 5, 0], .t⟩, ⟨[10, 5, 0, 0], .t⟩, ⟨[14, 5, 0, 0], .t⟩, ⟨[11, 0, 0, 0, 0], .t⟩,
-             ⟨[12, 0, 0, 0, 0], .t⟩] }
+             ⟨[15, 0, 0, 0, 0], .t⟩] }
 
-/-- K18a: `matches_re("a+")` built before and after `re.purge()` -/
-theorem C18_K18a_witness : ∃ c, wf c = true ∧ "K18a" ∈ known c ∧ spec c (model c) = false :=
-  ⟨k18aWitness, by decide⟩
+/-- the former K18a witness — `matches_re("a+")` built before and after `re.purge()` — is an ordinary
+    case now: no known deviation, and the model satisfies the spec on it (regression case in the corpus) -/
+theorem C18_K18a_repaired : wf k18aWitness = true ∧ known k18aWitness = [] ∧
+    (model k18aWitness).eq = .t ∧ (model k18aWitness).hashAgree = true ∧
+    spec k18aWitness (model k18aWitness) = true := by decide
 
 /-! ### non-vacuity -/
 
 /-- the hypotheses of `C18_equal_params_equal` are satisfiable by a case with nested conjunctions -/
 example : ∃ (eo : EqOracle) (v w : V), source v = true ∧ source w = true ∧ coherent eo v w = true ∧
-    sameUpTo eo v w = true ∧ k9 eo v w = false ∧ (eo.purge = false ∨ hasRe v = false) ∧
+    sameUpTo eo v w = true ∧ k9 eo v w = false ∧
     paramsHashable eo v = true :=
-  ⟨{ peq := fun _ _ _ => .t, patEq := fun _ _ _ _ => .t, patSame := fun _ _ _ _ => true,
-     phash := fun _ _ => .t, phashEq := fun _ _ _ => true, purge := false },
+  ⟨{ peq := fun _ _ _ => .t, patEq := fun _ _ _ _ => .t, patHashEq := fun _ _ _ _ => true,
+     phash := fun _ _ => .t, phashEq := fun _ _ _ => true },
    .and_ [.in_ 0, .and_ [.matchesRe 0 0 .dflt, .optionalSeq true [.isCallable]]],
    .and_ [.in_ 1, .and_ [.matchesRe 0 0 .dflt, .optionalSeq true [.isCallable]]], by decide⟩
 
